@@ -1,14 +1,17 @@
 (* C03 - Parallel backends see isolated requests; processing is data-race free.
    Only theorem statements, each closed by an exact lemma, and Print Assumptions. *)
 Require Import Verif.Common.Base Verif.Common.Heap.
-Require Import Verif.Model.C03 Verif.Spec.C03 Verif.Proof.C03 Verif.Proof.C03_rf Verif.Proof.C03_iso.
+Require Import Verif.Model.C03 Verif.Spec.C03 Verif.Proof.C03 Verif.Proof.C03_rf Verif.Proof.C03_iso Verif.Proof.C03_scope.
 
 (* The fork tree of EVERY endpoint configuration (any number of backends, any filter lists,
    GraphQL options, methods, concurrent_calls) and EVERY client request in the scope of the
    statement passes the structural race checker: no goroutine performs an access that
    conflicts with an access of a goroutine it is not ordered with.  in_scope excludes only
    what the statement excludes: a body shared by shallow clones (no backend with a method
-   other than GET/HEAD, so the body is not replicated). *)
+   other than GET/HEAD, so the body is not replicated) that TWO OR MORE pipelines consume.
+   A client body handed to one plain backend next to GraphQL query siblings is in scope: the
+   query stage replaces the Body field of its own struct and never reads or closes the
+   reader it was handed. *)
 Theorem C03_all_configs : forall cfg q, in_scope cfg q = true -> race_free_b cfg q = true.
 Proof. exact all_configs. Qed.
 Print Assumptions C03_all_configs.
@@ -55,7 +58,7 @@ Print Assumptions C03_heap_agrees.
    concurrent calls) that patch is therefore NOT a violation: the caller's request is touched
    again only by a sequential merge, which is outside this property (C02/C04 own it). *)
 Theorem C03_last_attempt_on_callers_request_race_free : forall cfg q,
-  in_scope cfg q = true -> race_free obj_eqb (endpoint_prog_gen true cfg q) = true.
+  in_scope_basic cfg q = true -> race_free obj_eqb (endpoint_prog_gen true cfg q) = true.
 Proof. exact (all_configs_gen true). Qed.
 Print Assumptions C03_last_attempt_on_callers_request_race_free.
 
@@ -107,7 +110,7 @@ Theorem C03_isolated_every_interleaving : forall cfg q sched s t k b alone,
   nth_error cfg k = Some b -> In (tid t) (leaf_tids (List.length cfg) k b) ->
   In alone (sent_seq (solo cfg k) q 0) ->
   sent_of_log (log t) = alone.
-Proof. exact isolated_every_interleaving. Qed.
+Proof. exact all_configs_every_interleaving. Qed.
 Print Assumptions C03_isolated_every_interleaving.
 
 (* the executable model satisfies the boolean oracle: its own observations (what every
@@ -165,3 +168,23 @@ Example C03_ex_two_graphql_post_siblings :
   map (option_map s_hdr) (sent_seq [g "/a" "short"; g "/b" "a longer body"] q 0) =
     [Some [("Content-Type", ["application/json"]); ("Content-Length", ["5"])]].
 Proof. vm_compute. split; reflexivity. Qed.
+
+(* a client body in an all-GET fan-out: one plain backend next to GraphQL query siblings.  No
+   replication (in_scope_basic is false), in scope all the same: only the plain pipeline
+   touches the shared reader, and it is handed the whole body *)
+Definition ex_gql_post := {| b_method := "GET"; b_hdrs := []; b_qs := []; b_cc := 1; b_host := "http://h3"; b_path := "/gp";
+                            b_gql := Some {| g_get := false; g_kind := GQuery; g_out := Some ("{op}", []) |} |}.
+Definition ex_req_get_body := {| q_method := "GET"; q_hdr := []; q_qry := []; q_par := []; q_body := Some "BODY" |}.
+Example C03_ex_shared_body_one_reader :
+  in_scope_basic [ex_gql_post; ex_plain; ex_gql_post] ex_req_get_body = false /\
+  in_scope [ex_gql_post; ex_plain; ex_gql_post] ex_req_get_body = true /\
+  race_free_b [ex_gql_post; ex_plain; ex_gql_post] ex_req_get_body = true /\
+  map (option_map s_body) (sent_seq [ex_gql_post; ex_plain; ex_gql_post] ex_req_get_body 1) = [Some "BODY"] /\
+  map (option_map s_body) (sent_seq [ex_gql_post; ex_plain; ex_gql_post] ex_req_get_body 0) = [Some "{op}"].
+Proof. vm_compute. repeat split; reflexivity. Qed.
+(* a stage that CLOSED the reader it was handed (state VClosed: later reads fail) before
+   replacing it would conflict with the plain sibling that forwards that reader *)
+Example C03_ex_close_of_shared_body_is_a_conflict :
+  race_free obj_eqb [Fork [Acc (Wr (orig FBody) VClosed)];
+                     Fork (map Acc (http_stage (init_pst ex_req_get_body)))] = false.
+Proof. vm_compute. reflexivity. Qed.
